@@ -7,6 +7,7 @@ both local filesystem and network filesystems (NFS, etc.).
 
 import errno
 import os
+import threading
 import time
 from contextlib import contextmanager
 from typing import Any, Generator, Optional
@@ -60,6 +61,7 @@ class FileLock:
         self._lock_fd: Optional[int] = None
         self._locked = False
         self._used_excl_fallback = False
+        self._owner_thread: Optional[int] = None
 
     def is_held(self) -> bool:
         """Whether this instance currently holds the lock."""
@@ -78,6 +80,15 @@ class FileLock:
         Raises:
             TimeoutError: If the timeout expires while waiting for the lock.
         """
+        # A previous release() may have been skipped by an interrupt, leaving
+        # this object marked as holding the lock. A new acquisition opens a NEW
+        # file descriptor, and flock treats the still-open old descriptor as a
+        # different owner - the calling thread would dead-lock against its own
+        # stale hold until the timeout. Only the thread that took the hold may
+        # drop it: another thread's hold is a live critical section.
+        if self._lock_fd is not None and self._owner_thread == threading.get_ident():
+            self.release()
+
         # Ensure lock file directory exists
         lock_dir = os.path.dirname(self.lock_file)
         if lock_dir:
@@ -116,10 +127,22 @@ class FileLock:
                 self._lock_fd = fd
                 self._locked = True
                 self._used_excl_fallback = False
+                self._owner_thread = threading.get_ident()
                 return True
             except (IOError, OSError):
                 os.close(fd)
                 return False
+            except BaseException:
+                # Interrupted (KeyboardInterrupt / SystemExit) between taking the
+                # flock and recording it: never leak a descriptor that holds the
+                # lock - nothing could ever release it.
+                self._lock_fd = None
+                self._locked = False
+                try:
+                    os.close(fd)
+                except OSError:
+                    pass
+                raise
 
         # Fallback: O_CREAT|O_EXCL existence locking with stale-lock breaking.
         # Weaker than kernel locks (no automatic release on crash), but still
@@ -134,6 +157,7 @@ class FileLock:
             self._lock_fd = fd
             self._locked = True
             self._used_excl_fallback = True
+            self._owner_thread = threading.get_ident()
             return True
         except (IOError, OSError) as e:
             if e.errno != errno.EEXIST:
@@ -163,28 +187,35 @@ class FileLock:
         In O_EXCL fallback mode the file's existence IS the lock, so there we
         do delete it.
         """
-        if not self._locked or self._lock_fd is None:
+        fd = self._lock_fd
+        if fd is None:
+            self._locked = False
             return
 
         try:
             if self._used_excl_fallback:
-                os.close(self._lock_fd)
                 try:
                     os.unlink(self.lock_file)
                 except (IOError, OSError):
                     pass
             else:
                 if FCNTL_AVAILABLE:
-                    fcntl.flock(self._lock_fd, fcntl.LOCK_UN)
+                    fcntl.flock(fd, fcntl.LOCK_UN)
                 elif MSVCRT_AVAILABLE:
-                    msvcrt.locking(self._lock_fd, msvcrt.LK_UNLCK, 1)  # type: ignore[attr-defined]
-                os.close(self._lock_fd)
-
+                    msvcrt.locking(fd, msvcrt.LK_UNLCK, 1)  # type: ignore[attr-defined]
+        except Exception:
+            # Best effort: closing the descriptor below drops the lock anyway
+            pass
+        finally:
+            # ALWAYS close the descriptor and clear the state - also when the
+            # unlock failed or an interrupt arrived - so a failed release can
+            # never leave the lock held by a descriptor nobody will close.
             self._lock_fd = None
             self._locked = False
-        except Exception:
-            # Best effort cleanup
-            pass
+            try:
+                os.close(fd)
+            except OSError:
+                pass
 
     def __enter__(self) -> "FileLock":
         """Context manager entry."""
